@@ -47,6 +47,7 @@ func runC01(c *core.Ctx) {
 	c.Rule("R5", "the token→owner index is rebuilt from the descriptor on every topology change and never modified (shared with C13.R7)", 1)
 	c.Rule("R6", "every token of the ring reaches the sorted lists the walk searches: the merges that build them drop nothing, 2^32-1 included (shared with C14.R3 and C14.R7)", 2)
 	c.Rule("R7", "the walk's per-zone counters are separate storage: each counter slice is a prefix of its own array or a fresh allocation", 1)
+	c.Rule("R8", "successor search: the index after an exact match, the insertion point otherwise, index 0 past the last token — nothing else", 1)
 	c.Rule("R4", "default strategy: quorum computed before filtering over max(RF, walked); keep ⇔ IsHealthy (state ∧ one-sided heartbeat age ≤ timeout); slack = healthy − quorum", 6)
 	pkg := c.Prog.Pkg("ring")
 	if pkg == nil {
@@ -238,6 +239,7 @@ func runC01(c *core.Ctx) {
 	c14ExtremumAs(c, pkg, "R6")
 	c14MergeMarkerAs(c, pkg, "R6")
 	c01Counters(c, pkg)
+	c01SearchTokenAs(c, pkg, "R8")
 	// ---- R4
 	c01Filter(c, pkg)
 }
@@ -684,4 +686,90 @@ func c01CountersAs(c *core.Ctx, pkg *packages.Package, R string) {
 	}
 	sort.Strings(bad)
 	c.Check(len(bases) >= 3 && len(bad) == 0, R, "func=findInstancesForKey:counters", fn.Pos(), fmt.Sprintf("%d integer counter slices, each on storage of its own: %v", len(bases), bad), len(bases))
+}
+
+// c01SearchTokenAs: every lookup (instances and partitions) starts at searchToken(tokens, key), "the first
+// token strictly after the key". Decided on the function's shape: the index comes from
+// slices.BinarySearch(tokens, key); it is advanced by one ⇔ the key was found; it is reset to 0 ⇔ it is
+// ≥ len(tokens); those are the only assignments and the index is what is returned.
+func c01SearchTokenAs(c *core.Ctx, pkg *packages.Package, R string) {
+	fn := an.FindFunc(pkg, "searchToken")
+	if fn == nil {
+		c.Miss(R, "func=searchToken", "not found")
+		return
+	}
+	c.Analysed(fn.String())
+	g := fn.Graph()
+	// the index variable: first result of the binary search
+	var idx types.Object
+	var initOK bool
+	fn.InspectShallow(func(n ast.Node) bool {
+		if as, ok := n.(*ast.AssignStmt); ok && len(as.Lhs) == 2 && len(as.Rhs) == 1 && as.Tok == token.DEFINE {
+			if fn.Canon(as.Rhs[0]) == "slices.BinarySearch(p0, p1)" {
+				idx = fn.ObjOf(as.Lhs[0])
+				initOK = true
+			}
+		}
+		return true
+	})
+	if idx == nil {
+		c.Undec(R, "func=searchToken", fn.Pos(), "the index is not defined by `i, found := slices.BinarySearch(tokens, key)` (another search is not recognised)")
+		return
+	}
+	var inc, reset []an.Loc
+	var other []string
+	fn.InspectShallow(func(n ast.Node) bool {
+		switch x := n.(type) {
+		case *ast.AssignStmt:
+			if x.Tok == token.DEFINE {
+				return true
+			}
+			for i, l := range x.Lhs {
+				if id, ok := l.(*ast.Ident); ok && fn.ObjOf(id) == idx && i < len(x.Rhs) {
+					switch rhs := types.ExprString(x.Rhs[i]); {
+					case x.Tok == token.ASSIGN && (rhs == id.Name+" + 1" || rhs == "1 + "+id.Name), x.Tok == token.ADD_ASSIGN && rhs == "1":
+						inc = append(inc, g.Locate(x))
+					case x.Tok == token.ASSIGN && rhs == "0":
+						reset = append(reset, g.Locate(x))
+					default:
+						other = append(other, types.ExprString(l)+" "+x.Tok.String()+" "+rhs)
+					}
+				}
+			}
+		case *ast.IncDecStmt:
+			if id, ok := x.X.(*ast.Ident); ok && fn.ObjOf(id) == idx {
+				if x.Tok == token.INC {
+					inc = append(inc, g.Locate(x))
+				} else {
+					other = append(other, id.Name+"--")
+				}
+			}
+		}
+		return true
+	})
+	retOK := true
+	for _, b := range g.Blocks {
+		if r := an.ReturnOf(b); r != nil {
+			id, ok := an.Unparen(r.Results[0]).(*ast.Ident)
+			if !ok || fn.ObjOf(id) != idx {
+				retOK = false
+			}
+		}
+	}
+	if len(inc) != 1 || len(reset) != 1 || len(other) > 0 || !retOK || !initOK {
+		c.Check(false, R, "func=searchToken", fn.Pos(), fmt.Sprintf("expected one `i+1`, one `i = 0`, no other assignment of the index, and the index returned: %d/%d/%v/returned=%v", len(inc), len(reset), other, retOK), 1)
+		return
+	}
+	t := an.Table{G: g, From: g.EntryLoc(), FreeUnknown: true, Opts: an.ExecOpts{NoTrack: map[types.Object]bool{idx: true}},
+		Atoms:   []an.Atom{{Name: "found", Values: []string{"T", "F"}}, {Name: "end", Values: []string{"lt", "eq", "gt"}}},
+		Binder:  &an.Binder{Fn: fn, Bool: map[string]string{"slices.BinarySearch(p0, p1)#1": "found"}, Cmp: map[string]string{idx.Name() + "|len(p0)": "end"}},
+		Targets: []an.Loc{inc[0], reset[0]}, Names: []string{"i+1", "i=0"},
+		Want: func(r an.Row, i int) an.Tri {
+			if i == 0 {
+				return an.FromBool(r["found"] == "T")
+			}
+			return an.FromBool(r["end"] != "lt")
+		}}
+	res := t.Run()
+	c.Check(res.OK() && g.Before(inc[0], reset[0]) || res.OK() && !g.Before(reset[0], inc[0]), R, "func=searchToken", fn.Pos(), "i = BinarySearch(tokens, key); i+1 ⇔ found; then i = 0 ⇔ i ≥ len(tokens); i returned: "+res.Summary(), res.Rows)
 }
